@@ -158,6 +158,17 @@ add('C15', "Four ways from a grammar text to a grammar model - the checked-in ge
     "differential execution of the bootstrap parser, the compiled grammar file, a regenerated parser and the shipped model (translation validation)",
     "5 C15, 8", level='translation_validation')
 
+add('C08', "(1) PegSem's meta expressions (@int @uint @float @bool @name) evaluated by TLC on 10 meta grammars x every text over the characters the matchers "
+    "are sensitive to (digits, signs, dot, exponent letter, underscore, letter, space); replayed on TextLines and the legacy Buffer with parseinfo on/off: "
+    "accept/reject and value as specified. (2) full-language and seeded random grammars x texts with empty / control / CR-LF mixes / Unicode separators / "
+    "non-ASCII / long inputs: every outcome must be a result or a FailedParse whose position lies in the text, whose line, column and source line are mutually "
+    "consistent and equal to the LinePos line, identical for both input implementations, and whose message renders. (3) syntax corpus + character-level "
+    "mutants as compile input: a model or a TatSu parse/grammar error; any other exception type, RecursionError or time-out is a violation.",
+    "Trusted: TLC, projections. The quantifier over all Unicode strings is sampled by class representatives and seeded random strings (exploration); "
+    "texts whose treatment the documents leave open (digit run followed by a letter) are checked for the outcome domain only.",
+    "TLA+ spec PegSem (meta expressions, outcome domain) evaluated by TLC + replay on both input implementations + fault-oriented text/grammar mutation",
+    "5 C08")
+
 import sys
 checks = [C[p] for p in props if p in C]
 na = [{"property_id": p, "reason": "check not built yet in this round (build in progress; DESIGN.md section 10 gives the order)"} for p in props if p not in C]
